@@ -118,6 +118,31 @@ func TestC01(t *testing.T) {
 		}
 	}
 
+	// pinned witnesses of the known findings: fixed program + line, expected
+	// value of counter c by the reference semantics (worked out by hand)
+	pinned := []struct {
+		id, src, line string
+		want         int64
+	}{
+		{"C01-a", "counter c\n/x/ {\n}\n/y/ {\n} else {\n  otherwise {\n    c++\n  }\n}\n", "x", 1},
+		{"C01-f", "counter c\ndef d {\n  /a=(\\d+)/ {\n    next\n  }\n}\n@d {\n  /zzz/ {\n    @d {\n      c++\n    }\n  }\n  c += $1\n}\n", "a=3", 3},
+	}
+	for _, pw := range pinned {
+		pr, err := mt.Load(mt.UniqueName("pin"), pw.src, mt.VMOpts{})
+		r.Eval(1)
+		if err != nil {
+			r.Violation("pinned-rejected-"+pw.id, map[string]any{"program": pw.src, "error": err.Error()})
+			continue
+		}
+		pr.Line("logfile", pw.line)
+		got := mt.Dump(pr.Obj.Metrics, false)
+		want := fmt.Sprintf("[]=%d", pw.want)
+		if !strings.Contains(got, want) {
+			r.Known(pw.id, map[string]any{"program": pw.src, "line": pw.line, "reference_c": pw.want, "real_store": got, "real_error": pr.VM.RuntimeErrorString()})
+		}
+		pr.Close()
+	}
+
 	n := ev.Pick(4000, 60000)
 	nlines := ev.Pick(16, 24)
 	rng := ev.NewRNG(ev.Seed(), "c01")
